@@ -23,6 +23,7 @@ import (
 	"sort"
 	"strings"
 	"sync"
+	"sync/atomic"
 	"time"
 )
 
@@ -174,6 +175,7 @@ type World struct {
 	live     sync.WaitGroup
 	panics   []PanicInfo
 	closed   map[uintptr]bool
+	beat     int64 // wall-clock time of the last scheduling step (watchdog)
 	enBuf    []transition
 	ordBuf   []*Thread
 	qBuf     []*Thread
@@ -258,7 +260,7 @@ func Run(body func(), prefix []int, widths []int, cfg Config) *Result {
 	go func() {
 		tk := time.NewTicker(2 * time.Second)
 		defer tk.Stop()
-		start := time.Now()
+		atomic.StoreInt64(&world.beat, time.Now().UnixNano())
 		for {
 			select {
 			case <-stop:
@@ -266,8 +268,9 @@ func Run(body func(), prefix []int, widths []int, cfg Config) *Result {
 			case <-tk.C:
 				var ms runtime.MemStats
 				runtime.ReadMemStats(&ms)
-				if time.Since(start) > StuckAfter || ms.HeapAlloc > MemLimit {
-					reason := fmt.Sprintf("livelock: the code under test ran for %v (heap %d MB) without reaching a scheduling point", time.Since(start).Round(time.Second), ms.HeapAlloc>>20)
+				since := time.Duration(time.Now().UnixNano() - atomic.LoadInt64(&world.beat))
+				if since > StuckAfter || ms.HeapAlloc > MemLimit {
+					reason := fmt.Sprintf("livelock: the code under test ran for %v (heap %d MB) without reaching a scheduling point", since.Round(time.Second), ms.HeapAlloc>>20)
 					choices := make([]int, 0, len(world.trace))
 					for _, p := range world.trace {
 						choices = append(choices, p.Choice)
@@ -448,6 +451,9 @@ func (wd *World) schedule() {
 		}
 		wd.trace = append(wd.trace, pt)
 		wd.steps++
+		if wd.steps&15 == 0 {
+			atomic.StoreInt64(&wd.beat, time.Now().UnixNano())
+		}
 		wd.fire(en[idx])
 		return
 	}
